@@ -1,6 +1,6 @@
 /- helper lemmas for C13 (not property theorems) -/
 import OQ.Model.C13
-import OQ.Generated.Translated
+import OQ.Generated.TranslatedC13
 import Mathlib.Tactic.Linarith
 import Mathlib.Tactic.Ring
 import Mathlib.Tactic.FieldSimp
